@@ -302,10 +302,10 @@ def op_strategy(kinds=None):
 
 @st.composite
 def histories(draw, max_n=7, max_ops=10):
-    mode = draw(st.integers(0, 6))
+    mode = draw(st.integers(0, 7))
     net = draw(
         gen.networks(
-            min_n=2 if mode < 6 else 5, max_n=max_n if mode < 6 else max(max_n, 10), max_dim=4, volume_limit=2**16
+            min_n=2 if mode < 6 else 5, max_n=max_n if mode < 6 else max(max_n, 10 if mode == 6 else 8), max_dim=4, volume_limit=2**16
         )
     )
     path = draw(gen.linear_paths(len(net["inputs"])))
@@ -316,7 +316,23 @@ def histories(draw, max_n=7, max_ops=10):
         "slicing": {"remove", "restore", "slice", "unslice_rand", "unslice_all", "slice_unslice", "contract", "copy"},
         "recipes": {"sort", "reset_inds", "contract", "reconf", "anneal", "remove", "restore", "copy"},
     }
-    if mode >= 6:
+    if mode == 7:
+        # explicit index orders (sort_contraction_indices) are compiled into
+        # contraction recipes by a first contraction; then labels are sliced
+        # and restored again (which changes the legs of the nodes above), and
+        # the tree must still contract right: with the recipes of its nodes
+        # as they are NOW
+        def pick(kinds):
+            return draw(op_strategy(kinds))
+
+        ops = [dict(pick({"sort"}), obs="none"), dict(pick({"contract"}), obs="none")]
+        for _ in range(draw(st.integers(1, 2))):
+            ops.append(dict(pick({"remove"}), inplace=True, where=draw(st.sampled_from(["inner", "multi", "any"])), obs=draw(st.sampled_from(["none", "none", "real"]))))
+        for _ in range(draw(st.integers(1, 2))):
+            ops.append(dict(pick({"restore", "unslice_rand", "unslice_all"}), inplace=True, obs="none"))
+        if draw(st.booleans()):
+            ops.append(dict(pick({"remove", "sort", "contract"}), obs="none"))
+    elif mode >= 6:
         # a SLICED tree is annealed / tempered without a size target (which
         # leaves the slicing alone) and then again with one (which slices and
         # unslices as it goes): whatever the first run left attached to the
